@@ -84,6 +84,20 @@ def sosEntry? (w : World) (sender : Party Fr) (e : String) : Option (SosEntry Fr
       pure (SosEntry.sign i (some (pubKey sk)) h σ)
   | _ => none
 
+/-- `reconstruct <shareidx:sigidx,…>`: `BLS0ChainReconstruction.Add` for every pair, then `Reconstruct`. -/
+def reconstructOp (w : World) (pairs : String) : Option (World × String) :=
+    let ps := (splitList pairs).mapM (fun e => match e.splitOn ":" with
+      | [a, b] => do
+        let sh ← a.toNat?.bind (w.tshares[·]?)
+        let σ ← b.toNat?.bind (sig? w)
+        pure (sh.1, σ)
+      | _ => none)
+    match ps with
+    | some ps => match reconstruct ps with
+      | some x => some (pushSig w x)
+      | none => some (w, "err")
+    | none => bad w
+
 /-- the operations shared by all crypto drivers. `none` = not one of these. -/
 def step (w : World) (ws : List String) : Option (World × String) :=
   match ws with
@@ -145,18 +159,14 @@ def step (w : World) (ws : List String) : Option (World × String) :=
   | ["tverify", i, si, m] => match i.toNat?.bind (w.tshares[·]?), si.toNat?.bind (sig? w), msg? w m with
     | some sh, some σ, some h => some (w, showBool (verifyLib (pubKey sh.2) h σ))
     | _, _, _ => bad w
-  | ["reconstruct", pairs] =>
-    let ps := (splitList pairs).mapM (fun e => match e.splitOn ":" with
-      | [a, b] => do
-        let sh ← a.toNat?.bind (w.tshares[·]?)
-        let σ ← b.toNat?.bind (sig? w)
-        pure (sh.1, σ)
-      | _ => none)
-    match ps with
-    | some ps => match reconstruct ps with
-      | some x => some (pushSig w x)
+  | ["tid", i] => match i.toNat?.bind (w.tshares[·]?) with
+    -- the share's id survives the string round trip GetID → SetID (`DKG.idRoundTrip`: parse ∘ show = id)
+    | some sh => match i.toNat?.bind (fun k => ZChain.DKG.idRoundTrip (k + 1)) with
+      | some k => if Fr.ofNat k == sh.1 then some (w, s!"id {k}") else some (w, "err")
       | none => some (w, "err")
     | none => bad w
+  | ["reconstructs", pairs] => reconstructOp w pairs
+  | ["reconstruct", pairs] => reconstructOp w pairs
   /- DKG (`chaincore/threshold/bls/dkg.go`) -/
   | ["dkg", t, n] => match t.toNat?, n.toNat? with
     | some t, some n => some ({ t := t, n := n }, "ok")
